@@ -10,6 +10,13 @@
 //! through `pgp::packet::StreamDecryptor::{v1,v2}` directly, and drained with every consumer
 //! pattern. Required: an `Err` before the end of the stream; released bytes empty (SEIPDv1
 //! CheckFirst) or a prefix of the true plaintext (SEIPDv2).
+//!
+//! "Composed" bases add the message-layer dimension: the decrypted stream continues behind the inner
+//! message (Padding / Marker / unknown packets over several AEAD chunks resp. more than one CFB
+//! buffer; literal, compressed and one-pass-signed inner messages) and the SEIPD packet sits in
+//! every outer message form (Marker / Padding / unknown packets and SKESKs around it). The
+//! decryptors authenticate only what is pulled through them, so for these the error has to come
+//! from the message layer walking the rest of the container.
 
 use std::borrow::Cow;
 use std::collections::{BTreeMap, BTreeSet};
@@ -19,7 +26,7 @@ use pgp::composed::{DecryptionOptions, Message, MessageBuilder, PlainSessionKey,
 use pgp::crypto::aead::{AeadAlgorithm, ChunkSize};
 use pgp::crypto::sym::SymmetricKeyAlgorithm;
 use pgp::packet::{StreamDecryptor, SymEncryptedProtectedDataConfig};
-use pgp::types::Seipdv1ReadMode;
+use pgp::types::{Password, Seipdv1ReadMode};
 use rand::{Rng, RngCore, SeedableRng};
 use rand_chacha::ChaCha8Rng;
 use serde_json::json;
@@ -140,6 +147,15 @@ struct Base {
     size_class: String,
     /// set when the independent reference could not read the untampered container
     ref_note: Option<String>,
+    /// composed bases: the packets of the message in front of / behind the SEIPD packet (never tampered)
+    pre: Vec<u8>,
+    post: Vec<u8>,
+    /// composed bases: names of the outer message form and of the form of the decrypted stream
+    forms: Option<(&'static str, &'static str)>,
+    /// an SKESK for this password is among the leading packets
+    password: Option<String>,
+    /// offset in `body` of the first ciphertext octet that carries plaintext behind the inner message
+    tail_start: Option<usize>,
 }
 
 impl Base {
@@ -174,7 +190,23 @@ impl Base {
         }
     }
     fn label(&self) -> String {
-        format!("{}/{}/{:?}/id{}", self.cfg.label(), self.size_class, self.framing, self.id)
+        match self.forms {
+            None => format!("{}/{}/{:?}/id{}", self.cfg.label(), self.size_class, self.framing, self.id),
+            Some((o, i)) => format!("{}/{}/{:?}/id{}/outer[{}]/inner[{}]", self.cfg.label(), self.size_class, self.framing, self.id, o, i),
+        }
+    }
+    fn composed(&self) -> bool {
+        self.forms.is_some()
+    }
+    /// the whole message around a (tampered) SEIPD packet; `cut`: the byte stream ends with `pkt`
+    fn wrap(&self, pkt: &[u8], cut: bool) -> Vec<u8> {
+        let mut v = Vec::with_capacity(self.pre.len() + pkt.len() + self.post.len());
+        v.extend_from_slice(&self.pre);
+        v.extend_from_slice(pkt);
+        if !cut {
+            v.extend_from_slice(&self.post);
+        }
+        v
     }
     fn mode_name(&self, mode: Mode) -> &'static str {
         match self.cfg {
@@ -405,6 +437,7 @@ fn make_base(
             let probe = Base {
                 id, cfg, framing: Framing::Fixed, key: key.clone(), payload: payload.clone(), msg: msg.clone(), body: body.clone(),
                 hdr_len: 0, inner: vec![], regions: vec![], chunks: vec![], size_class: String::new(), ref_note: None,
+                pre: vec![], post: vec![], forms: None, password: None, tail_start: None,
             };
             match core::guard(|| run_direct(&body, &probe, Mode::Default, &Consume::ToEnd, Sched::All, false)) {
                 Ok(Outcome::Read(d, _)) if d.err.is_none() => d.data,
@@ -428,6 +461,11 @@ fn make_base(
         regions,
         chunks,
         ref_note,
+        pre: vec![],
+        post: vec![],
+        forms: None,
+        password: None,
+        tail_start: None,
     })
 }
 
@@ -470,6 +508,223 @@ fn make_ref_base(ctx: &Ctx, id: u32, cfg: Cfg, inner_len: usize) -> Result<Base,
         regions,
         chunks,
         ref_note: None,
+        pre: vec![],
+        post: vec![],
+        forms: None,
+        password: None,
+        tail_start: None,
+    })
+}
+
+// ------------------------------------------------------------------------------------------
+// composed bases: outer message forms x forms of the decrypted stream.
+//
+// The container authenticates only what is pulled through the decryptor; the part of the plaintext
+// behind the end of the inner message (padding / marker / unknown packets) is pulled by the message
+// layer. These bases put packets the grammar allows (and the library skips) in front of / behind the
+// SEIPD packet and in front of / behind the inner message, so that "read to the end" has to walk a
+// tail of several AEAD chunks (resp. more than one CFB buffer) in every message shape.
+
+const OUTER_FORMS: [&str; 8] = [
+    "seipd",
+    "marker|seipd",
+    "padding|seipd",
+    "experimental|seipd",
+    "skesk|seipd",
+    "marker(old-format)|skesk|marker|padding|seipd",
+    "seipd|padding",
+    "unassigned-noncritical|marker|seipd|marker",
+];
+
+/// u = AEAD chunk size (SEIPDv2) resp. 64 (SEIPDv1)
+const INNER_FORMS: [&str; 9] = [
+    "literal",
+    "literal|marker",
+    "literal|padding(4u+7)",
+    "literal|padding(u)|experimental(2u)|padding(u)",
+    "marker|literal|padding(3u)",
+    "padding(u)|literal|padding(3u)",
+    "compressed(literal)|padding(3u)",
+    "ops|literal|signature|padding(3u)",
+    "literal|padding(8192+u)",
+];
+
+fn pkt(tag: u8, body: &[u8]) -> Vec<u8> {
+    rfc::frame::frame(tag, body, &LenForm::NewMin).expect("frame")
+}
+
+fn rnd(rng: &mut ChaCha8Rng, n: usize) -> Vec<u8> {
+    let mut v = vec![0u8; n];
+    rng.fill_bytes(&mut v);
+    v
+}
+
+fn padding(rng: &mut ChaCha8Rng, n: usize) -> Vec<u8> {
+    pkt(21, &rnd(rng, n))
+}
+
+const COMPOSED_PW: &str = "C03 composed message password";
+
+fn make_composed_base(ctx: &Ctx, id: u32, cfg: Cfg, outer: usize, inner_form: usize, lit_total: usize) -> Result<Base, String> {
+    use std::io::Write;
+    let mut rng = ctx.rng("base", id as u64);
+    let rng = &mut rng;
+    let key = rnd(rng, cfg.key_len());
+    let u = if cfg.chunk() > 0 { cfg.chunk() } else { 64 };
+    let plen = payload_for_inner(lit_total).ok_or("literal length not representable")?;
+    let payload = rnd(rng, plen);
+    let mut lb = vec![b'b', 0, 0, 0, 0, 0];
+    lb.extend_from_slice(&payload);
+    let lit = pkt(11, &lb);
+    let marker = pkt(10, b"PGP");
+
+    // ---- the decrypted stream: (packets in front of the message, the message, packets behind it)
+    let (head, message, tail): (Vec<u8>, Vec<u8>, Vec<u8>) = match inner_form {
+        0 => (vec![], lit, vec![]),
+        1 => (vec![], lit, marker.clone()),
+        2 => (vec![], lit, padding(rng, 4 * u + 7)),
+        3 => {
+            let mut t = padding(rng, u);
+            t.extend(pkt(61, &rnd(rng, 2 * u)));
+            t.extend(padding(rng, u));
+            (vec![], lit, t)
+        }
+        4 => (marker.clone(), lit, padding(rng, 3 * u)),
+        5 => (padding(rng, u), lit, padding(rng, 3 * u)),
+        6 => {
+            // Compressed Data packet around the literal packet (flate2 resp. stored)
+            let alg = (id % 3) as u8;
+            let mut cb = vec![alg];
+            match alg {
+                0 => cb.extend_from_slice(&lit),
+                1 => {
+                    let mut e = flate2::write::DeflateEncoder::new(Vec::new(), flate2::Compression::fast());
+                    e.write_all(&lit).map_err(|e| e.to_string())?;
+                    cb.extend(e.finish().map_err(|e| e.to_string())?);
+                }
+                _ => {
+                    let mut e = flate2::write::ZlibEncoder::new(Vec::new(), flate2::Compression::fast());
+                    e.write_all(&lit).map_err(|e| e.to_string())?;
+                    cb.extend(e.finish().map_err(|e| e.to_string())?);
+                }
+            }
+            (vec![], pkt(8, &cb), padding(rng, 3 * u))
+        }
+        7 => {
+            // one-pass signed message; the signature value is never verified here, only parsed
+            let keyid = rnd(rng, 8);
+            let mut ops = vec![3u8, 0x00, 8, 22];
+            ops.extend_from_slice(&keyid);
+            ops.push(1);
+            let mut sig = vec![4u8, 0x00, 22, 8, 0, 6, 5, 2, 0x65, 0x00, 0x00, 0x00, 0, 10, 9, 16];
+            sig.extend_from_slice(&keyid);
+            sig.extend(rnd(rng, 2));
+            for _ in 0..2 {
+                let mut m = rnd(rng, 32);
+                m[0] |= 0x80;
+                sig.extend_from_slice(&[0x01, 0x00]);
+                sig.extend(m);
+            }
+            let mut msg = pkt(4, &ops);
+            msg.extend_from_slice(&lit);
+            msg.extend(pkt(2, &sig));
+            (vec![], msg, padding(rng, 3 * u))
+        }
+        8 => (vec![], lit, padding(rng, 8192 + u)),
+        _ => return Err("inner form".into()),
+    };
+    let msg_end = head.len() + message.len();
+    let mut inner = head;
+    inner.extend(message);
+    inner.extend(tail);
+
+    // ---- the container (reference encryptor)
+    let body = match cfg {
+        Cfg::V1 { alg } => {
+            let bs = rfc::sym::block_size(alg).ok_or("block size")?;
+            let pre = rnd(rng, bs);
+            let mut b = vec![1u8];
+            b.extend(rfc::sym::seipd_v1_encrypt(alg, &key, &pre, &inner).ok_or("ref v1 encrypt")?);
+            b
+        }
+        Cfg::V2 { sym, aead, co } => {
+            let mut salt = [0u8; 32];
+            rng.fill_bytes(&mut salt);
+            rfc::sym::seipd_v2_encrypt(sym, aead, co, &salt, &key, &inner).ok_or("ref v2 encrypt")?
+        }
+    };
+    let tail_start = if msg_end < inner.len() {
+        Some(match cfg {
+            Cfg::V1 { alg } => 1 + rfc::sym::block_size(alg).unwrap_or(16) + 2 + msg_end,
+            Cfg::V2 { .. } => 36 + msg_end + 16 * (msg_end / u),
+        })
+    } else {
+        None
+    };
+
+    // ---- the packets around the SEIPD packet
+    let skesk = |rng: &mut ChaCha8Rng| -> Result<Vec<u8>, String> {
+        let mut salt = [0u8; 8];
+        rng.fill_bytes(&mut salt);
+        let s2k = rfc::sym::RefS2k::Iterated { hash: 8, salt, count: 0 };
+        let b = match cfg {
+            Cfg::V1 { alg } => rfc::sym::skesk_v4_encode(9, &s2k, COMPOSED_PW.as_bytes(), Some((alg, &key))),
+            Cfg::V2 { sym, aead, .. } => {
+                let iv = rnd(rng, rfc::sym::aead_nonce_len(aead).ok_or("nonce length")?);
+                rfc::sym::skesk_v6_encode(sym, aead, &s2k, COMPOSED_PW.as_bytes(), &iv, &key)
+            }
+        };
+        Ok(pkt(3, &b.ok_or("ref skesk")?))
+    };
+    let mut pre = vec![];
+    let mut post = vec![];
+    let mut password = None;
+    match outer {
+        0 => {}
+        1 => pre.extend_from_slice(&marker),
+        2 => pre.extend(padding(rng, 37)),
+        3 => pre.extend(pkt(60 + (id % 4) as u8, &rnd(rng, 21))),
+        4 => {
+            pre.extend(skesk(rng)?);
+            password = Some(COMPOSED_PW.to_string());
+        }
+        5 => {
+            pre.extend(rfc::frame::frame(10, b"PGP", &LenForm::Old1).ok_or("frame")?);
+            pre.extend(skesk(rng)?);
+            pre.extend_from_slice(&marker);
+            pre.extend(padding(rng, 5));
+            password = Some(COMPOSED_PW.to_string());
+        }
+        6 => post.extend(padding(rng, 2 * u + 3)),
+        7 => {
+            pre.extend(pkt(40 + (id % 20) as u8, &rnd(rng, 9)));
+            pre.extend_from_slice(&marker);
+            post.extend_from_slice(&marker);
+        }
+        _ => return Err("outer form".into()),
+    }
+
+    let msg = pkt(18, &body);
+    let (regions, chunks) = regions_and_chunks(cfg, &body, inner.len())?;
+    Ok(Base {
+        id,
+        cfg,
+        framing: Framing::Fixed,
+        key,
+        payload,
+        hdr_len: msg.len() - body.len(),
+        size_class: size_class(cfg, inner.len()),
+        msg,
+        body,
+        inner,
+        regions,
+        chunks,
+        ref_note: None,
+        pre,
+        post,
+        forms: Some((OUTER_FORMS[outer], INNER_FORMS[inner_form])),
+        password,
+        tail_start,
     })
 }
 
@@ -568,7 +823,7 @@ enum Outcome {
     Skipped,
 }
 
-fn run_message(msg: &[u8], base: &Base, mode: Mode, pat: &Consume, probe: bool, sched: Option<Sched>) -> Outcome {
+fn run_message(msg: &[u8], base: &Base, mode: Mode, pat: &Consume, probe: bool, sched: Option<Sched>, use_pw: bool) -> Outcome {
     let parsed = match sched {
         None => Message::from_bytes(msg),
         // the message arrives in fragments (the source hands out short fill_buf windows)
@@ -578,20 +833,35 @@ fn run_message(msg: &[u8], base: &Base, mode: Mode, pat: &Consume, probe: bool, 
         Ok(m) => m,
         Err(e) => return Outcome::Parse(e.to_string()),
     };
-    let sk = base.session_key();
-    let dec = if mode == Mode::Default {
-        m.decrypt_with_session_key(sk)
-    } else {
-        let ring = TheRing {
-            session_keys: vec![sk],
-            decrypt_options: DecryptionOptions::new().set_seipdv1_read_mode(base.lib_mode(mode)),
-            ..Default::default()
-        };
-        m.decrypt_the_ring(ring, true).map(|(m, _)| m)
+    let pw = match (&base.password, use_pw) {
+        (Some(p), true) => Some(Password::from(p.as_str())),
+        _ => None,
     };
-    let mut d = match dec {
+    let dec = match (&pw, mode) {
+        (None, Mode::Default) => m.decrypt_with_session_key(base.session_key()),
+        (Some(pw), Mode::Default) => m.decrypt_with_password(pw),
+        _ => {
+            let ring = TheRing {
+                session_keys: if pw.is_none() { vec![base.session_key()] } else { vec![] },
+                message_password: pw.iter().collect(),
+                decrypt_options: DecryptionOptions::new().set_seipdv1_read_mode(base.lib_mode(mode)),
+                ..Default::default()
+            };
+            m.decrypt_the_ring(ring, true).map(|(m, _)| m)
+        }
+    };
+    let d = match dec {
         Ok(d) => d,
         Err(e) => return Outcome::Decrypt(e.to_string()),
+    };
+    // a compressed inner message is read through the decompressor (composed bases only)
+    let mut d = if base.composed() && d.is_compressed() {
+        match d.decompress() {
+            Ok(d) => d,
+            Err(e) => return Outcome::Decrypt(e.to_string()),
+        }
+    } else {
+        d
     };
     let dr = drain(&mut d, pat);
     let post = if probe && dr.err.is_some() {
@@ -725,6 +995,8 @@ struct Trial<'a> {
     desc: &'a dyn Fn() -> String,
     pat: &'a Consume,
     probe: bool,
+    /// the byte stream ends with the (truncated) SEIPD packet: packets behind it are cut off too
+    cut: bool,
 }
 
 fn chunk_idx_name(i: u64) -> &'static str {
@@ -746,10 +1018,13 @@ fn judge(ctx: &mut Ctx, acc: &mut Acc, t: &Trial, level: Level, data: &[u8], out
             "config": base.cfg.label(), "size_class": base.size_class, "framing": format!("{:?}", base.framing),
             "base_id": base.id, "mode": t.base.mode_name(t.mode), "level": level.name(), "kind": t.kind, "tamper": (t.desc)(),
             "consumer": t.pat.name(), "session_key": hex::encode(&base.key),
-            "input": hexs(data), "untampered": hexs(if level == Level::Msg { &base.msg } else { &base.body }),
+            "input": hexs(data), "untampered": hexs(&if level == Level::Msg { base.wrap(&base.msg, false) } else { base.body.clone() }),
+            "outer_form": base.forms.map(|f| f.0), "decrypted_stream_form": base.forms.map(|f| f.1), "password": base.password,
             "what": what,
         })
     };
+    // input class of the signature: bases with packets around the container / the inner message
+    let cls = if base.composed() { "/composed" } else { "" };
     acc.n += 1;
     let truth: &[u8] = if level == Level::Msg { &base.payload } else { &base.inner };
     let mut clean = false;
@@ -774,7 +1049,7 @@ fn judge(ctx: &mut Ctx, acc: &mut Acc, t: &Trial, level: Level, data: &[u8], out
                 None => {
                     clean = true;
                     ctx.violation(
-                        format!("C03/{fam}/{}/clean-eof", t.kind),
+                        format!("C03/{fam}/{}/clean-eof{cls}", t.kind),
                         format!(
                             "tampered container read to a clean end of stream ({} level, {}, {}, {}, consumer {}): {} bytes released, {}",
                             level.name(), base.label(), t.base.mode_name(t.mode), (t.desc)(), t.pat.name(), d.data.len(),
@@ -794,7 +1069,7 @@ fn judge(ctx: &mut Ctx, acc: &mut Acc, t: &Trial, level: Level, data: &[u8], out
                 match base.cfg {
                     Cfg::V1 { .. } if t.mode.check_first() => {
                         ctx.violation(
-                            format!("C03/{fam}/{}/released-before-auth", t.kind),
+                            format!("C03/{fam}/{}/released-before-auth{cls}", t.kind),
                             format!(
                                 "SEIPDv1 CheckFirst mode released {} plaintext bytes before the error ({} level, {}, {}, {}, consumer {})",
                                 d.data.len(), level.name(), base.label(), t.base.mode_name(t.mode), (t.desc)(), t.pat.name()
@@ -815,7 +1090,7 @@ fn judge(ctx: &mut Ctx, acc: &mut Acc, t: &Trial, level: Level, data: &[u8], out
                             acc.t("v2.released-true-prefix-before-error");
                         } else {
                             ctx.violation(
-                                format!("C03/{fam}/{}/released-non-prefix", t.kind),
+                                format!("C03/{fam}/{}/released-non-prefix{cls}", t.kind),
                                 format!(
                                     "SEIPDv2 released {} bytes before the error that are not a prefix of the true plaintext ({} level, {}, {}, consumer {})",
                                     d.data.len(), level.name(), base.label(), (t.desc)(), t.pat.name()
@@ -901,7 +1176,9 @@ fn judge(ctx: &mut Ctx, acc: &mut Acc, t: &Trial, level: Level, data: &[u8], out
                     replay("hook I-2"),
                 );
             }
-            if released as u64 > max_written && (any_chunk || released > 0) {
+            // (a compressed inner message may expand: released octets are not container plaintext octets)
+            let expanding = base.forms.is_some_and(|f| f.1.starts_with("compressed"));
+            if released as u64 > max_written && (any_chunk || released > 0) && !expanding {
                 ctx.violation(
                     "C03/v2/hook/released-exceeds-authenticated",
                     format!(
@@ -925,27 +1202,42 @@ fn sched_for(v: u64, c: usize) -> Sched {
     }
 }
 
-/// Message level trial
+/// Message level trial; `tampered` is the SEIPD packet, the other packets of the message are kept
 fn try_msg(ctx: &mut Ctx, acc: &mut Acc, t: &Trial, tampered: &[u8], v: u64) {
     if tampered == &t.base.msg[..] {
         acc.t("skipped.identical-to-original");
         return;
     }
+    let wrapped;
+    let whole: &[u8] = if t.base.pre.is_empty() && (t.cut || t.base.post.is_empty()) {
+        tampered
+    } else {
+        wrapped = t.base.wrap(tampered, t.cut);
+        &wrapped
+    };
     // every third variant is delivered through a fragmenting source
     let sched = if v % 3 == 2 { Some(sched_for(v / 3 + 1, t.base.cfg.chunk())) } else { None };
     if sched.is_some() {
         acc.t("trials.message-level.fragmented-source");
     }
+    // messages with an SKESK: session key found through the password for every other variant
+    let use_pw = t.base.password.is_some() && (v / 3) % 2 == 1;
+    if use_pw {
+        acc.t("trials.message-level.by-password");
+    }
     let sigp = format!("C03/{}/{}", t.base.fam(), t.kind);
     let r = ctx.guarded(
         &sigp,
-        || json!({"config": t.base.cfg.label(), "mode": t.base.mode_name(t.mode), "level": "message", "tamper": (t.desc)(), "consumer": t.pat.name(), "source": sched.as_ref().map(|s| s.name()), "session_key": hex::encode(&t.base.key), "input": hexs(tampered)}),
-        || hooks::record(|| run_message(tampered, t.base, t.mode, t.pat, t.probe, sched.clone())),
+        || json!({"config": t.base.cfg.label(), "mode": t.base.mode_name(t.mode), "level": "message", "tamper": (t.desc)(), "consumer": t.pat.name(), "source": sched.as_ref().map(|s| s.name()), "session_key": hex::encode(&t.base.key), "password": if use_pw { t.base.password.clone() } else { None }, "input": hexs(whole)}),
+        || hooks::record(|| run_message(whole, t.base, t.mode, t.pat, t.probe, sched.clone(), use_pw)),
     );
     ctx.eval();
     acc.t("trials.message-level");
+    if t.base.composed() {
+        acc.t("trials.message-level.composed");
+    }
     if let Some((out, ev)) = r {
-        judge(ctx, acc, t, Level::Msg, tampered, out, &ev);
+        judge(ctx, acc, t, Level::Msg, whole, out, &ev);
     }
 }
 
@@ -983,7 +1275,10 @@ fn baseline_ok(base: &Base, pats: &[Consume]) -> Result<(), String> {
     for mode in base.modes() {
         for (i, pat) in pats.iter().enumerate() {
             if base.framing != Framing::DirectOnly {
-                match core::guard(|| run_message(&base.msg, base, *mode, pat, false, if i % 2 == 1 { Some(sched_for(i as u64, base.cfg.chunk())) } else { None })) {
+                let whole = base.wrap(&base.msg, false);
+                // (composed bases with an SKESK: both ways of finding the session key)
+                let use_pw = base.password.is_some() && i % 2 == 0;
+                match core::guard(|| run_message(&whole, base, *mode, pat, false, if i % 2 == 1 { Some(sched_for(i as u64, base.cfg.chunk())) } else { None }, use_pw)) {
                     Ok(Outcome::Read(d, _)) if d.err.is_none() && d.data == base.payload => {}
                     Ok(Outcome::Read(d, _)) => {
                         return Err(format!("untampered message: {:?} / {} bytes ({} {})", d.err.map(|e| e.to_string()), d.data.len(), mode.name(), pat.name()))
@@ -1387,6 +1682,15 @@ fn pat_for<'a>(pats: &'a [Consume], all: bool, v: usize, big: bool) -> &'a [Cons
     &pats[i..i + 1]
 }
 
+/// Composed bases: every tamper variant is read with one pattern of each of the three classes the
+/// property names (read_to_end, fixed-size read, BufRead), the member of the class rotating.
+fn pats_for<'a>(pats: &'a [Consume], all: bool, v: usize, big: bool, composed: bool) -> Vec<&'a Consume> {
+    if composed && !all && pats.len() == 9 {
+        return vec![&pats[0], &pats[1 + v % 4], &pats[5 + (v / 4) % 4]];
+    }
+    pat_for(pats, all, v, big).iter().collect()
+}
+
 pub fn run(ctx: &mut Ctx) {
     let pats = Consume::all_basic();
     let quick = ctx.quick();
@@ -1488,8 +1792,46 @@ pub fn run(ctx: &mut Ctx) {
         }
     }
 
+    // ---- composed bases: outer message form x form of the decrypted stream (ids continue behind `specs`)
+    let mut cspecs: Vec<(Cfg, usize, usize, usize)> = vec![]; // (cfg, outer form, inner form, literal packet length)
+    for o in 0..OUTER_FORMS.len() {
+        // SEIPDv2: the full product with the small-tail forms; configurations and the position of the end of
+        // the literal packet relative to the chunk edge rotate
+        for i in 0..8usize {
+            let k = o * 8 + i;
+            let reps: &[u8] = if quick { &[0] } else { &[0, 1, 2] };
+            for &r in reps {
+                let k = k + r as usize * 5;
+                let co = if quick { u8::from(k % 7 == 3) } else { (k % 3) as u8 };
+                let c = 64usize << co;
+                let cfg = Cfg::V2 { sym: 7 + (k % 3) as u8, aead: 1 + ((k / 3) % 3) as u8, co };
+                let lit = [22, c, c + 1, 2 * c - 1, c - 1, 2 * c][(k + o) % if quick { 4 } else { 6 }];
+                cspecs.push((cfg, o, i, lit));
+            }
+        }
+        if !quick && o < 2 {
+            cspecs.push((Cfg::V2 { sym: 7 + o as u8, aead: 2 + o as u8, co: 0 }, o, 8, 22));
+        }
+        // SEIPDv1: three (quick) / all (thorough) small-tail forms per outer form, at least one of them with a
+        // tail; plus the tail that is longer than the decryptor's buffer
+        let inner_forms: Vec<usize> = if quick { vec![o % 8, (o + 3) % 8, (o + 5) % 8] } else { (0..8).collect() };
+        for (n, i) in inner_forms.into_iter().enumerate() {
+            let alg = v1_algs[(o * 3 + n) % v1_algs.len()];
+            cspecs.push((Cfg::V1 { alg }, o, i, [8, 22, 77][(o + n) % 3]));
+        }
+        cspecs.push((Cfg::V1 { alg: if o % 2 == 0 { 7 } else { 9 } }, o, 8, 22));
+    }
+
     let mut bases: Vec<Base> = vec![];
     let mut build_failures: Vec<String> = vec![];
+    for (j, (cfg, o, i, lit)) in cspecs.iter().enumerate() {
+        let r = make_composed_base(ctx, (specs.len() + j) as u32, *cfg, *o, *i, *lit);
+        match r.and_then(|b| baseline_ok(&b, &pats).map(|_| b)) {
+            Ok(b) => bases.push(b),
+            Err(e) => build_failures.push(format!("{} outer[{}] inner[{}]: {}", cfg.label(), OUTER_FORMS[*o], INNER_FORMS[*i], e)),
+        }
+    }
+    let composed_bases = std::mem::take(&mut bases);
     for (i, (cfg, len, partial, reference)) in specs.iter().enumerate() {
         let r = if *reference {
             make_ref_base(ctx, i as u32, *cfg, *len)
@@ -1501,6 +1843,7 @@ pub fn run(ctx: &mut Ctx) {
             Err(e) => build_failures.push(format!("{} len {} partial {:?}: {}", cfg.label(), len, partial, e)),
         }
     }
+    bases.extend(composed_bases);
     if ctx.mine() {
         // reported once (by the shard owning case 0)
         for f in &build_failures {
@@ -1523,7 +1866,9 @@ pub fn run(ctx: &mut Ctx) {
         let fam = base.fam();
         let c = base.cfg.chunk();
         let msg_level = base.framing != Framing::DirectOnly;
-        let direct_level = base.framing != Framing::Partial;
+        // (the packets around the container do not reach the StreamDecryptor: one outer form is enough there)
+        let direct_level = base.framing != Framing::Partial && base.pre.is_empty() && base.post.is_empty();
+        let comp = base.composed();
 
         // ---- baseline coverage (once per base)
         if ctx.mine() {
@@ -1532,6 +1877,12 @@ pub fn run(ctx: &mut Ctx) {
             acc.s("configs", base.cfg.label());
             acc.s(if fam == "v1" { "v1.size-classes" } else { "v2.size-classes" }, base.size_class.clone());
             acc.s("framings", format!("{:?}", base.framing));
+            if let Some((o, i)) = base.forms {
+                acc.s("composed.outer-forms", o);
+                acc.s("composed.decrypted-stream-forms", format!("{fam}:{i}"));
+                acc.s("composed.cells", format!("{fam}:{o} x {i}"));
+                acc.t("composed.bases");
+            }
             if let Cfg::V2 { .. } = base.cfg {
                 acc.s("v2.data-chunks", chunk_idx_name((base.chunks.len() - 1) as u64));
             }
@@ -1569,12 +1920,19 @@ pub fn run(ctx: &mut Ctx) {
                             base.region_of(p - base.hdr_len)
                         };
                         acc.s(if fam == "v1" { "v1.flip-regions" } else { "v2.flip-regions" }, region);
+                        if let (Some(ts), Some((o, _))) = (base.tail_start, base.forms) {
+                            // which outer forms had a flip in the part of the container that only carries
+                            // packets behind the inner message (incl. MDC resp. final tag)
+                            if p >= base.hdr_len + ts {
+                                acc.s(if fam == "v1" { "composed.v1.flip-behind-inner-message" } else { "composed.v2.flip-behind-inner-message" }, o);
+                            }
+                        }
                         ctx.cover(&(base.id, mode, "flip", p));
                         for bit in 0..8u8 {
                             let v = p * 8 + bit as usize;
                             let desc = || format!("flip bit {bit} of message octet {p} ({region})");
-                            for pat in pat_for(&pats, small, v, big) {
-                                let t = Trial { base, mode, kind: "flip", desc: &desc, pat, probe: v as u64 % probe_every == 0 };
+                            for pat in pats_for(&pats, small, v, big, comp) {
+                                let t = Trial { base, mode, kind: "flip", desc: &desc, pat, probe: v as u64 % probe_every == 0, cut: false };
                                 if msg_level {
                                     scratch[p] ^= 1 << bit;
                                     try_msg(ctx, &mut acc, &t, &scratch, v as u64);
@@ -1617,7 +1975,7 @@ pub fn run(ctx: &mut Ctx) {
                         let desc = || format!("{name} octet {:#04x} -> {val:#04x}", base.body[*off]);
                         let m = reframe(&b);
                         for pat in pat_for(&pats, all, val as usize, big) {
-                            let t = Trial { base, mode, kind: "field", desc: &desc, pat, probe: val % 16 == 0 };
+                            let t = Trial { base, mode, kind: "field", desc: &desc, pat, probe: val % 16 == 0, cut: false };
                             if msg_level {
                                 try_msg(ctx, &mut acc, &t, &m, val as u64);
                             }
@@ -1642,7 +2000,7 @@ pub fn run(ctx: &mut Ctx) {
                                 let desc = || format!("salt octet {} -> {val:#04x}", off - 4);
                                 let m = reframe(&b);
                                 for pat in pat_for(&pats, false, off + k, big) {
-                                    let t = Trial { base, mode, kind: "field", desc: &desc, pat, probe: false };
+                                    let t = Trial { base, mode, kind: "field", desc: &desc, pat, probe: false, cut: false };
                                     if msg_level {
                                         try_msg(ctx, &mut acc, &t, &m, (off + k) as u64);
                                     }
@@ -1674,8 +2032,8 @@ pub fn run(ctx: &mut Ctx) {
                             let desc = || format!("container body truncated to {tl} of {} octets, packet re-framed", base.body.len());
                             let b = &base.body[..tl];
                             let m = reframe(b);
-                            for pat in pat_for(&pats, small, tl, big) {
-                                let t = Trial { base, mode, kind: "trunc", desc: &desc, pat, probe: tl % 8 == 0 };
+                            for pat in pats_for(&pats, small, tl, big, comp) {
+                                let t = Trial { base, mode, kind: "trunc", desc: &desc, pat, probe: tl % 8 == 0, cut: false };
                                 if msg_level {
                                     try_msg(ctx, &mut acc, &t, &m, tl as u64);
                                 }
@@ -1697,8 +2055,8 @@ pub fn run(ctx: &mut Ctx) {
                         for &tl in group {
                             ctx.cover(&(base.id, mode, "trunc-raw", tl));
                             let desc = || format!("raw message truncated to {tl} of {} octets", base.msg.len());
-                            for pat in pat_for(&pats, small, tl, big) {
-                                let t = Trial { base, mode, kind: "trunc-raw", desc: &desc, pat, probe: tl % 8 == 0 };
+                            for pat in pats_for(&pats, small, tl, big, comp) {
+                                let t = Trial { base, mode, kind: "trunc-raw", desc: &desc, pat, probe: tl % 8 == 0, cut: true };
                                 try_msg(ctx, &mut acc, &t, &base.msg[..tl], tl as u64);
                             }
                         }
@@ -1715,8 +2073,8 @@ pub fn run(ctx: &mut Ctx) {
                     ctx.cover(&(base.id, mode, "append", k));
                     let desc = || d.clone();
                     let m = reframe(&b);
-                    for pat in pat_for(&pats, !big, k, big) {
-                        let t = Trial { base, mode, kind: "append", desc: &desc, pat, probe: true };
+                    for pat in pats_for(&pats, !big, k, big, comp) {
+                        let t = Trial { base, mode, kind: "append", desc: &desc, pat, probe: true, cut: false };
                         if msg_level {
                             try_msg(ctx, &mut acc, &t, &m, k as u64);
                         }
@@ -1742,8 +2100,8 @@ pub fn run(ctx: &mut Ctx) {
                     }
                     let desc = || d.clone();
                     let m = reframe(&b);
-                    for pat in pat_for(&pats, !big, k, big) {
-                        let t = Trial { base, mode, kind, desc: &desc, pat, probe: true };
+                    for pat in pats_for(&pats, !big, k, big, comp) {
+                        let t = Trial { base, mode, kind, desc: &desc, pat, probe: true, cut: false };
                         if msg_level {
                             try_msg(ctx, &mut acc, &t, &m, k as u64);
                         }
@@ -1764,8 +2122,8 @@ pub fn run(ctx: &mut Ctx) {
                     m[0] = 0xC0 | tag;
                     ctx.cover(&(base.id, mode, "hdr-tag", tag));
                     let desc = || format!("packet tag 18 -> {tag}");
-                    for pat in pat_for(&pats, false, tag as usize, big) {
-                        let t = Trial { base, mode, kind: "header", desc: &desc, pat, probe: false };
+                    for pat in pats_for(&pats, false, tag as usize, big, comp) {
+                        let t = Trial { base, mode, kind: "header", desc: &desc, pat, probe: false, cut: false };
                         try_msg(ctx, &mut acc, &t, &m, tag as u64);
                     }
                 }
@@ -1780,8 +2138,8 @@ pub fn run(ctx: &mut Ctx) {
                     m.extend_from_slice(&base.body);
                     ctx.cover(&(base.id, mode, "hdr-len", d));
                     let desc = || format!("declared packet length {decl} instead of {n}");
-                    for pat in pat_for(&pats, false, (d + 30) as usize, big) {
-                        let t = Trial { base, mode, kind: "header", desc: &desc, pat, probe: false };
+                    for pat in pats_for(&pats, false, (d + 30) as usize, big, comp) {
+                        let t = Trial { base, mode, kind: "header", desc: &desc, pat, probe: false, cut: false };
                         try_msg(ctx, &mut acc, &t, &m, (d + 30) as u64);
                     }
                 }
@@ -1797,7 +2155,8 @@ pub fn run(ctx: &mut Ctx) {
                             continue;
                         }
                         ctx.eval();
-                        match core::guard(|| run_message(&m, base, mode, &Consume::ToEnd, false, None)) {
+                        let m = base.wrap(&m, false);
+                        match core::guard(|| run_message(&m, base, mode, &Consume::ToEnd, false, None, false)) {
                             Ok(Outcome::Read(d, _)) if d.err.is_none() && d.data == base.payload => acc.t("control.equivalent-length-encoding.decrypts"),
                             _ => {
                                 acc.t("control.equivalent-length-encoding.rejected");
